@@ -26,6 +26,10 @@ image data; afterwards the same request again without fault; compared with `requ
 answered without image by a request that looks successful); (f) a source with alpha and a clipping coverage
 (clip: true, inside the grid extent) in front of an opaque cache: tiles cut out of meta tiles that cross the coverage
 border are compared byte by byte with the same tile fetched alone, sampled pixels with `model_clip_colour`.
+(g) encoded store: what a real backend writes (decoded bytes of tile.source.as_buffer(), lossless options colors=0) for
+an upstream with alpha, with true colour + tRNS, or opaque RGBA behind a clipping coverage; cache options opaque /
+transparent / `mixed`; several requests on one cache whose image options object is shared; every stored tile (no
+buffer cut off) equals the same tile fetched alone on a fresh cache, format included.
 Oracle (Python, exact fractions, independent of the model): stored tile == same tile fetched alone through a
 TileManager without meta tiling (bit-exact when no buffer is cut off at the grid border, <= 1 px otherwise);
 no background pixel more than one pixel inside the extent; every requested tile is produced; one upstream
@@ -131,6 +135,9 @@ def call(f, *a, **kw):
 
 # ----------------------------------------------------------------------------- position-encoding upstream
 
+TRNS_KEY = (7, 7, 255)        # blue 255 is never a picture colour
+
+
 def colour_of(transparent, vx, vy):
     return (vx % 256, vy % 256, (vx * 7 + vy * 13) % 255, 1 + (vx + 3 * vy) % 254 if transparent else 255)
 
@@ -173,6 +180,20 @@ class Picture:
                 for vx in xs:
                     buf += bytes(colour_of(True, vx, vy))
             return Image.frombytes('RGBA', (w, h), bytes(buf))
+        if self.kind == 'rgba1':
+            # RGBA without any transparency (alpha 255 everywhere)
+            for vy in ys:
+                for vx in xs:
+                    buf += bytes(colour_of(False, vx, vy))
+            return Image.frombytes('RGBA', (w, h), bytes(buf))
+        if self.kind == 'rgbt':
+            # true colour with one colour marked transparent (PNG colour type 2 + tRNS): a third of the cells
+            for vy in ys:
+                for vx in xs:
+                    buf += bytes(TRNS_KEY if (vx + 2 * vy) % 3 == 0 else colour_of(False, vx, vy)[:3])
+            img = Image.frombytes('RGB', (w, h), bytes(buf))
+            img.info['transparency'] = TRNS_KEY
+            return img
         for vy in ys:
             for vx in xs:
                 buf += bytes(colour_of(False, vx, vy)[:3])
@@ -289,7 +310,10 @@ class Upstream:
         img = self.picture.render(bbox, size)
         if fault == 'truncate' or self.as_buffer:
             b = BytesIO()
-            img.save(b, 'PNG')
+            if 'transparency' in img.info:
+                img.save(b, 'PNG', transparency=img.info['transparency'])
+            else:
+                img.save(b, 'PNG')
             data = b.getvalue()
             if fault == 'truncate':
                 # the connection ends in the middle of the (first) IDAT chunk: the image data is incomplete
@@ -352,6 +376,9 @@ class RecordingCache:
     coverage = None
     supports_dimensions = False
 
+    encode = False
+    shared_opts = None
+
     def __init__(self, events, lock):
         self.events, self.lock = events, lock
         self.stored = {}
@@ -385,7 +412,17 @@ class RecordingCache:
     def _put(self, tiles):
         rec = []
         for t in tiles:
-            img = t.source.as_image().copy()
+            if self.encode:
+                # what a real cache backend writes: the bytes of tile.source.as_buffer(); kept decoded to RGBA
+                from io import BytesIO
+                from PIL import Image
+                data = t.source.as_buffer(seekable=True).read()
+                img = Image.open(BytesIO(data))
+                fmt = img.format
+                img = img.convert('RGBA')
+                img.info['stored_format'] = fmt
+            else:
+                img = t.source.as_image().copy()
             rec.append((tuple(t.coord), img))
         with self.lock:
             self.events.append(('store', tkey(), rec))
@@ -417,7 +454,19 @@ def run_manager(gc, picture, cfg, coords, cache=None, rendezvous=None, fault_at=
     events, lock = [], threading.Lock()
     bulk = cfg['bulk']
     src_opts = opts
-    if cfg.get('clip'):
+    variant = cfg.get('cache_opts')
+    if variant:
+        # lossless encoders (colors=0: no quantisation), the source delivers alpha / tRNS, the cache options vary
+        src_opts = ImageOptions(transparent=True, format='image/png', colors=0)
+        if cache is not None and cache.shared_opts is not None:
+            opts = cache.shared_opts          # one TileManager configuration lives as long as its cache
+        elif variant == 'png-opaque':
+            opts = ImageOptions(transparent=False, format='image/png', colors=0)
+        elif variant == 'png-transparent':
+            opts = ImageOptions(transparent=True, format='image/png', colors=0)
+        else:
+            opts = ImageOptions(transparent=True, format='mixed', colors=0)
+    if cfg.get('clip') and not cfg.get('cache_opts'):
         # a source with alpha and a clipping coverage in front of an opaque cache
         src_opts = ImageOptions(transparent=True, format='image/png', mode='RGBA')
         opts = ImageOptions(transparent=False, format='image/png', mode='RGB')
@@ -433,6 +482,10 @@ def run_manager(gc, picture, cfg, coords, cache=None, rendezvous=None, fault_at=
         cache = RecordingCache(events, lock)
     else:
         cache.events, cache.lock = events, lock
+    if variant:
+        cache.encode = True
+        cache.shared_opts = opts
+        up.as_buffer = True
     pre_cached = set(cache.stored)
     try:
         tm = TileManager(gc.grid, cache, [src], 'png', DummyLocker(), image_opts=opts,
@@ -786,7 +839,7 @@ def run(ctx):
 
     grids = []
     defs = []
-    T = {name: ([], []) for name in ('misc', 'meta_tile', 'minimal', 'plan', 'pixel', 'colour', 'faults', 'clip')}
+    T = {name: ([], []) for name in ('misc', 'meta_tile', 'minimal', 'plan', 'pixel', 'colour', 'faults', 'clip', 'enc')}
 
     def add(name, term, desc):
         T[name][0].append(term)
@@ -1057,6 +1110,100 @@ def run(ctx):
                         (mgl, q, how, blit(inside), coord_lit(coord), j, k) + tuple(got[k][j])),
                         dict(rep, tile=coord, pixel=(j, k), inside_coverage=inside, rgba=got[k][j]))
 
+    def run_encoded(gc, level, spec=None):
+        """what a real cache backend stores (the encoded bytes of tile.source.as_buffer(), lossless options) for an
+        upstream that delivers alpha (RGBA), true colour + tRNS, or opaque RGBA behind a clipping coverage, with opaque,
+        transparent and `mixed` cache image options, as a history on ONE cache (its image options object lives as
+        long as the cache): every stored tile equals the same tile fetched alone on a fresh cache."""
+        r = gc.res[level]
+        nx, ny = gc.grid_size(level)
+        if spec is None:
+            variant = rng.choice(['alpha-opaque-cache', 'trns', 'mixed-clip'])
+            xa, ya = rng.randrange(nx), rng.randrange(ny)
+            cfg = {'meta_size': rng.choice([[2, 2], [3, 2], [2, 1], [1, 2], [4, 4]]), 'meta_buffer': rng.choice([0, 0, 0, 2, 5]),
+                   'minimize': rng.random() < 0.3, 'bulk': False, 'concurrent': rng.choice([1, 1, 2]), 'as_buffer': True, 'source': 'mock'}
+            block = [(x, y, level) for y in range(ya, min(ny, ya + 2)) for x in range(xa, min(nx, xa + 3))]
+            if variant == 'alpha-opaque-cache':
+                kind, cfg['cache_opts'] = 'rgba', 'png-opaque'
+                requests = [block]
+            elif variant == 'trns':
+                kind, cfg['cache_opts'] = 'rgbt', rng.choice(['png-opaque', 'png-transparent'])
+                requests = [block]
+            else:
+                kind, cfg['cache_opts'] = 'rgba1', 'mixed'
+                t = gc.tile_rect(xa, ya, level)
+                cov = [max(t[0] - 2 * r, gc.bbox[0]), max(t[1] - 2 * r, gc.bbox[1]), min(t[2] + 2 * r, gc.bbox[2]), min(t[3] + 2 * r, gc.bbox[3])]
+                if t[0] < cov[0] or t[1] < cov[1] or t[2] > cov[2] or t[3] > cov[3]:
+                    return          # the tile is not inside the grid extent
+                cfg['clip'] = [float(v) for v in cov]
+                nb = [(x, y, level) for y in range(max(0, ya - 1), min(ny, ya + 2)) for x in range(max(0, xa - 1), min(nx, xa + 2))
+                      if (x, y) != (xa, ya)]
+                nb = [c for c in nb if (lambda q: q[0] < cov[2] and cov[0] < q[2] and q[1] < cov[3] and cov[1] < q[3])(gc.tile_rect(c[0], c[1], level))]
+                if not nb:
+                    return
+                rng.shuffle(nb)
+                # first the tile inside the coverage (opaque), then neighbours that cross the coverage border
+                requests = [[(xa, ya, level)], nb[:rng.randrange(1, len(nb) + 1)]]
+            spec = {'config': cfg, 'picture': kind, 'requests': requests}
+        cfg, kind = spec['config'], spec['picture']
+        requests = [[tuple(c) for c in rq] for rq in spec['requests']]
+        if cfg.get('clip') and not gc.can_scale(*cfg['clip']):
+            return
+        cov = [frac(v) for v in cfg['clip']] if cfg.get('clip') else None
+        q = int(gc.res[level] * gc.S)
+        picture = Picture(gc, q, kind)
+        rep = {'grid': gc.spec, 'config': cfg, 'level': level, 'requests_on_one_cache': [[list(c) for c in rq] for rq in requests],
+               'picture': kind, 'compared': 'decoded bytes of tile.source.as_buffer() as a cache backend stores them'}
+        ctx.count('encoded:' + kind + '/' + cfg['cache_opts'])
+        cache = RecordingCache([], threading.Lock())
+        gx0, gy0, gx1, gy1 = gc.bbox
+        for n, coords in enumerate(requests):
+            before = set(cache.stored)
+            steps, served, has_meta, err = run_manager(gc, picture, cfg, coords, cache=cache)
+            ctx.case(('encoded', json.dumps(rep, sort_keys=True), n), True, dict(rep, request=n) if len(ctx.samples) < 6 else None)
+            if err is not None:
+                ctx.fail('tile-manager-raises', 'TileManager raised %s' % err, dict(rep, request=n))
+                return
+            unc = []
+            for c in coords:
+                if c not in before and c not in unc:
+                    unc.append(c)
+            buf = cfg['meta_buffer'] if has_meta else 0
+            for reqs, rec in steps:
+                for coord, img in rec:
+                    rect = gc.tile_rect(coord[0], coord[1], level)
+                    if cov is not None and not (rect[0] < cov[2] and cov[0] < rect[2] and rect[1] < cov[3] and cov[1] < rect[3]):
+                        continue
+                    (bx0, bx1), (by0, by1) = block_of(gc, cfg, unc, level, coord, has_meta)
+                    lo, hi = gc.tile_rect(bx0, by0, level), gc.tile_rect(bx1, by1, level)
+                    box = (min(lo[0], hi[0]) - buf * r, min(lo[1], hi[1]) - buf * r, max(lo[2], hi[2]) + buf * r, max(lo[3], hi[3]) + buf * r)
+                    if not (buf == 0 or (box[0] >= gx0 and box[1] >= gy0 and box[2] <= gx1 and box[3] <= gy1)):
+                        ctx.count('encoded:not_compared_buffer_cut_off')
+                        continue
+                    key = (gc.name, coord, 'encoded', kind, cfg['cache_opts'], tuple(cfg.get('clip') or ()))
+                    if key not in ref_cache:
+                        scfg = {'meta_size': None, 'meta_buffer': None, 'minimize': False, 'bulk': False, 'concurrent': 1,
+                                'cache_opts': cfg['cache_opts'], 'clip': cfg.get('clip')}
+                        st, sv, hm, er = run_manager(gc, picture, scfg, [coord])
+                        ref_cache[key] = st[0][1][0][1] if (er is None and st and st[0][1]) else None
+                    ref = ref_cache[key]
+                    if ref is None:
+                        ctx.fail('single-tile-fetch-fails', 'tile %r fetched alone is not produced' % (coord,), dict(rep, request=n))
+                        continue
+                    ctx.count('encoded:compared_with_tile_fetched_alone')
+                    has_alpha = any(px[3] < 255 for row in picture.decode(img) for px in row)
+                    add('enc', '(%s, %s, %s)' % (blit(cfg['cache_opts'] == 'mixed'), blit(has_alpha),
+                                                 'EncJPEG' if img.info.get('stored_format') == 'JPEG' else 'EncPNG'),
+                        dict(rep, request=n, tile=coord, stored_format=img.info.get('stored_format'), has_alpha=has_alpha))
+                    fa, fb = img.info.get('stored_format'), ref.info.get('stored_format')
+                    if fa != fb or img.size != ref.size or img.tobytes() != ref.tobytes():
+                        a, b = picture.decode(img), picture.decode(ref)
+                        where = [(j, k) for k in range(min(len(a), len(b))) for j in range(min(len(a[0]), len(b[0]))) if a[k][j] != b[k][j]][:1]
+                        ctx.fail('tile-differs-from-tile-fetched-alone',
+                                 'request %d: tile %r as stored (%s) differs from the same tile fetched alone on a fresh cache (%s), first at %r: %r / %r; '
+                                 'no buffer cut off' % (n, coord, fa, fb, where, where and a[where[0][1]][where[0][0]], where and b[where[0][1]][where[0][0]]),
+                                 dict(rep, request=n, tile=coord))
+
     def run_faults(gc, level, kind, spec=None):
         """an upstream fault during one request (a response that must not be cached / a response that ends in the
         middle of the image data), then the same request again without fault, on one cache."""
@@ -1179,7 +1326,9 @@ def run(ctx):
     # ---- corpus first
     for item in load_corpus():
         gc = new_grid(item['grid'])
-        if 'clip' in item:
+        if 'encoded' in item:
+            run_encoded(gc, item['level'], spec=item['encoded'])
+        elif 'clip' in item:
             run_clip(gc, item['level'], spec=item['clip'])
         elif 'faults' in item:
             run_faults(gc, item['level'], item.get('picture', 'cells'), spec=item['faults'])
@@ -1273,6 +1422,8 @@ def run(ctx):
         for _ in range(ctx.n(3, 8) if e2e_levels else 0):
             run_clip(gc, rng.choice(e2e_levels))
         for _ in range(ctx.n(3, 8) if e2e_levels else 0):
+            run_encoded(gc, rng.choice(e2e_levels))
+        for _ in range(ctx.n(3, 8) if e2e_levels else 0):
             run_faults(gc, rng.choice(e2e_levels), rng.choice(['cells', 'cells', 'rgba', 'rgb']))
 
     dtext = '\n'.join(defs)
@@ -1302,6 +1453,9 @@ def run(ctx):
     ctx.corr_check('clip_coverage_colour', I, 'mgrid * Z * how * bool * coord * Z * Z * option rgba', T['clip'][0],
                    "fun c => let '(m, q, h, inside, t, j, k, obs) := c in orgba_eqb (model_clip_colour m q h inside t j k) obs",
                    lambda i: T['clip'][1][i], defs=dtext, shard=400)
+    ctx.corr_check('stored_encoding', I, 'bool * bool * encoding', T['enc'][0],
+                   "fun c => let '(mixed, has_alpha, obs) := c in encoding_eqb (stored_encoding mixed has_alpha) obs",
+                   lambda i: T['enc'][1][i], defs=dtext, shard=400)
     ctx.corr_check('stored_colour', I, 'mgrid * Z * how * bool * coord * Z * Z * option rgba', T['colour'][0],
                    "fun c => let '(m, q, h, tr, t, j, k, obs) := c in orgba_eqb (model_colour m q h tr t j k) obs",
                    lambda i: T['colour'][1][i], defs=dtext, shard=400)
